@@ -68,6 +68,7 @@ PROP = {  # keyword in subject -> (property, what failed)
  "selects the blocking or non-blocking state": ("C24", "network2 txsubmission State::apply: [Init] + RequestTxIds(false, ..) went to TxIdsBlocking, the spec says TxIdsNonBlocking"),
  "client's Done while a blocking request": ("C24", "network2 txsubmission State::apply: [Init, RequestTxIds(true, ..)] + Done was rejected, the spec lets the client terminate there"),
  "only the response to the query it sent": ("C23", "tx-monitor client: after RequestNextTx (or RequestHasTx / RequestSizeAndCapacity) recv_message() accepted the responses of the other two queries (one Busy state for three request kinds)"),
+ "ShelleyPoolPredFailure is encoded the way it is decoded": ("C22", "localtxsubmission ShelleyPoolPredFailure: derived encoder used tags 0..4 (decoder: 0,1,3,4,5; PoolMedataHashTooBig decoded as WrongNetworkPOOL) and wrote each Mismatch as two loose items inside a one-field flat variant (StakePoolCostTooLowPOOL / StakePoolRetirementWrongEpochPOOL / WrongNetworkPOOL not well-formed)"),
  "applies AwaitReply when it waits in CanAwait": ("C23", "send_request_next; request_or_await_next (or recv_while_must_reply) with AwaitReply injected returned Err(InvalidInbound), consumed the message and stayed in CanAwait"),
  "CostModels encodes": ("C06", "conway CostModels{unknown:{3:[1]}} encoded as a0 and decoded with unknown:{}"),
 }
